@@ -91,29 +91,36 @@ func (m *mutex) Unlock() {
 	(*sync.Mutex)(m).Unlock()
 }
 
+// findItab and addItab are called with itabTable locked.
 func findItab(inter *InterfaceType, typ *Type) *Itab {
-	itabTable.Lock()
 	for _, i := range itabTable.entries {
 		if i.inter == inter && i._type == typ {
-			itabTable.Unlock()
 			return i
 		}
 	}
-	itabTable.Unlock()
 	return nil
 }
 
 func addItab(i *Itab) {
-	itabTable.Lock()
 	itabTable.entries = append(itabTable.entries, i)
-	itabTable.Unlock()
 }
 
-// NewItab returns a new itab.
+// NewItab returns the itab of the pair (inter, typ), creating it if needed.
+// Look-up and insertion are one critical section: there is one itab per pair,
+// also when goroutines convert a type to an interface for the first time
+// concurrently (equality and hashing of map keys of interface type compare
+// itab pointers).
 func NewItab(inter *InterfaceType, typ *Type) *Itab {
 	if typ == nil {
 		return nil
 	}
+	itabTable.Lock()
+	ret := newItab(inter, typ)
+	itabTable.Unlock()
+	return ret
+}
+
+func newItab(inter *InterfaceType, typ *Type) *Itab {
 	if i := findItab(inter, typ); i != nil {
 		return i
 	}
